@@ -84,6 +84,13 @@ fn bits<T: Elem>(v: &[T]) -> Vec<u8> {
     v.iter().flat_map(|x| x.le()).collect()
 }
 
+/// a sink that takes at most `step` bytes per write call (a socket under pressure): the streaming writers must loop
+struct Dribble { out: Vec<u8>, step: usize }
+impl std::io::Write for Dribble {
+    fn write(&mut self, b: &[u8]) -> std::io::Result<usize> { let n = b.len().min(self.step); self.out.extend_from_slice(&b[..n]); Ok(n) }
+    fn flush(&mut self) -> std::io::Result<()> { Ok(()) }
+}
+
 /// facts about one array through the bulk paths
 fn bulk_facts<T: Elem>(v: &[T]) -> Value {
     let m = Message::builder().id(3).query_str("/bulk").body_typed_slice(v).build();
@@ -91,7 +98,11 @@ fn bulk_facts<T: Elem>(v: &[T]) -> Value {
     let mut h = Header::new();
     h.id = 3;
     h.query_format = m.header.query_format;
-    let stream_ok = repe::write_message_typed_slice(&mut streamed, h, b"/bulk", v).is_ok();
+    let mut stream_ok = repe::write_message_typed_slice(&mut streamed, h, b"/bulk", v).is_ok();
+    for step in [1usize, 3, 7] {
+        let mut d = Dribble { out: vec![], step };
+        stream_ok &= repe::write_message_typed_slice(&mut d, h, b"/bulk", v).is_ok() && d.out == streamed;
+    }
     let dec = m.decode_typed_slice::<T>();
     // a different element type must be rejected, not reinterpreted
     let wrong = {
@@ -131,7 +142,11 @@ fn complex_facts_v<T: Elem>(v: &[Complex<T>]) -> Value {
     let mut h = Header::new();
     h.id = 3;
     h.query_format = m.header.query_format;
-    let ok = repe::write_message_complex_slice(&mut streamed, h, b"/c", v).is_ok();
+    let mut ok = repe::write_message_complex_slice(&mut streamed, h, b"/c", v).is_ok();
+    for step in [1usize, 3, 7] {
+        let mut d = Dribble { out: vec![], step };
+        ok &= repe::write_message_complex_slice(&mut d, h, b"/c", v).is_ok() && d.out == streamed;
+    }
     let flat = |d: &[Complex<T>]| -> Vec<u8> { d.iter().flat_map(|c| [c.re.le(), c.im.le()].concat()).collect() };
     let wrong = if T::KLASS == 0 && T::KODE == 3 { m.decode_complex_slice::<u64>().is_err() } else { m.decode_complex_slice::<f64>().is_err() };
     json!({"bytes": m.body, "stream_equal": ok && streamed == m.to_vec(),
